@@ -4,6 +4,7 @@ import RsModel.Lemmas.ReplaceKeeps
 import RsModel.Lemmas.ReplaceAdvance
 import RsModel.Lemmas.WellDeclDecl
 import RsModel.Lemmas.ReplaceNames
+import RsModel.Lemmas.EraseContent
 /-!
 # C06 — composites preserve what their children attribute
 (the index-translation tables every composite relies on; attribution itself is tied by correspondence)
@@ -153,5 +154,16 @@ theorem c06_replacement_name_first_line (gc : Nat) (orig : Option Orig) (cls : L
         | [] => []
         | _ :: rest => (orig.bind fun _ => nameIdx) :: rest.map fun _ => none :=
   emitContent_names gc orig cls nameIdx st line
+
+
+/-- **C06, ConcatSource at name level, no assumption on contents**: for *any* children — SourceMapSource, CachedSource replays,
+ReplaceSource, nested ConcatSource — that merely announce their sources and names before use (C11) and deliver text, every byte
+contributed by child k resolves, through the ConcatSource's announcements, to the same file name, original line, original column
+and name as child k resolves it to on its own.  (`c06_concat` says the same *with* the embedded contents and needs "one content
+per file name"; dropping the contents from the announcements commutes with ConcatSource, whose tables are keyed by name only:
+`EraseContent.lean`.) -/
+theorem c06_concat_names (cs : List SResult) (h : ∀ c ∈ cs, DeclOK 0 0 c.evs ∧ evsTL c.evs = false) :
+    NA (concatStream false cs).evs = (cs.map fun c => NA c.evs).flatten :=
+  concatStream_NA cs h
 
 end Rs
